@@ -155,6 +155,9 @@ func genCase(t *rapid.T, v variant) *caseSpec {
 		if c.Pos < nLead {
 			c.Pos = nLead
 		}
+		if (middles+1)*size > 1<<20 {
+			c.BoundScale = 8 // megabytes through the converters: be patient on a loaded machine
+		}
 	}
 	for i := 0; i < n; i++ {
 		class, h := genHostile(t, g, c)
